@@ -1,0 +1,9 @@
+//go:build !verif
+
+package tcp
+
+// verifSeqNum and verifSeqNumActive are the disabled side of a verification seam (build tag verif):
+// in ordinary builds the sequence number the driver drew is used as it is.
+func verifSeqNum(v uint32) uint32 { return v }
+
+func verifSeqNumActive() bool { return false }
